@@ -783,7 +783,12 @@ class Tuple(ValueNode):
     def __setitem__(self, index, item):
         if not isinstance(item, NodeBase):
             item = Parameter(item)
+        _old = self._children[index]
         self._children[index] = item
+        item.add_parent(self)
+        if _old is not item and _old not in self._children:
+            _old.remove_parent(self)
+        self.mark_for_update()
 
     @property
     def nodes(self):
